@@ -127,10 +127,11 @@ func hclEscTemplate(s string) string {
 }
 
 // hclQuote: a quoted template literal for the abstract string a (token or plain).
-func hclQuote(a string) string {
-	s := lit(a)
+func hclQuote(a string) string { return `"` + hclQuoteInner(lit(a)) + `"` }
+
+// hclQuoteInner: the literal s as the inside of a quoted template (no surrounding quotes)
+func hclQuoteInner(s string) string {
 	var b strings.Builder
-	b.WriteByte('"')
 	for _, r := range s {
 		switch {
 		case r == '\\':
@@ -149,7 +150,6 @@ func hclQuote(a string) string {
 			b.WriteRune(r)
 		}
 	}
-	b.WriteByte('"')
 	return hclEscTemplate(b.String())
 }
 
@@ -418,7 +418,14 @@ func (l *hclLocals) listExpr(xs []string) string {
 
 // strExpr: an expression for the string a; `how` picks the convenience
 func (l *hclLocals) strExpr(a string, how int) string {
-	switch how % 4 {
+	switch how % 5 {
+	case 4:
+		// template interpolation of a local, as in the repository's own payload ("source.users[${local.next}].user_id"):
+		// the first half of the value comes from locals, the rest is written in place
+		rs := []rune(lit(a))
+		head, rest := string(rs[:len(rs)/2]), string(rs[len(rs)/2:])
+		h := l.def1("half", `"`+hclQuoteInner(head)+`"`)
+		return `"${` + h + `}` + hclQuoteInner(rest) + `"`
 	case 0:
 		return l.def1("str", hclStrL(a))
 	case 1:
@@ -561,7 +568,8 @@ func renderHCLLocals(d scDesc) string {
 		w("  requests = %s\n", l.listExpr(stepTexts(sc)))
 		w("}\n")
 	}
-	return l.blocks() + b.String()
+	// comments of all three kinds; nothing in them is evaluated
+	return "// scenario \"file\" ${not.evaluated} %{if}\n# second comment style: 'x'\n/* block\n   comment */\n" + l.blocks() + b.String()
 }
 
 // ------------------------------------------------------------------ YAML string syntax
@@ -995,9 +1003,9 @@ func renderYAMLAnchors(d scDesc) string {
 		}
 		w("    requests: %s\n", yamlFlowSeq(stepTexts(sc)))
 	}
-	head := ""
+	head := "# scenario \"file\": 'comment' {{not.a.template}} &not *an !anchor\n---\n"
 	if len(l.lines) > 0 {
-		head = "locals:\n" + strings.Join(l.lines, "\n") + "\n"
+		head += "locals:\n" + strings.Join(l.lines, "\n") + "\n"
 	}
 	return head + b.String()
 }
